@@ -720,6 +720,83 @@ func runC03(r *Run) {
 	}
 	r.Rule("R16", "see C02 R3 (imported): the sequence (nonce) of every journal-dirty account is written back by the StateDB's write-back loop on every flush and commit — a 'skip unchanged accounts' shortcut judged against the value at load time leaves an intermediate nonce that a mid-transaction flush wrote in the store (the creation message of a [create(n), call(n+1)] batch), i.e. a sequence the ante handler already consumed can be consumed again")
 	r.Import("R16/C02.", []string{"R3"}, runC02)
+	r.Rule("R17", "SHAPE.signed-bytes-cover-the-transaction's-bytes: an EIP-712 signature is checked against typed data rebuilt from the *decoded* transaction, so whatever the decoding drops is not signed. (a) the two decoders of a SIGN_MODE_DIRECT sign doc (decodeProtobufSignDoc, legacyDecodeProtobufSignDoc) hand SignDoc.BodyBytes to unknownproto.RejectUnknownFields(Strict) or compare them (bytes.Equal) with a re-encoding before building typed data; (b) the Web3Tx route, which signs over legacytx.StdSignBytes, looks at the body's non-critical extension options (which the SDK's amino-JSON handler refuses and this chain has no ExtensionOptionsDecorator for) before it verifies. Without these anybody can append bytes to a signed transaction without invalidating the signature: the ante handler charges 10 gas per byte against the signed gas limit, so the victim's transaction runs out of gas after the fee is taken and the sequence used")
+	for _, id := range []string{"ethereum/eip712.decodeProtobufSignDoc", "ethereum/eip712.legacyDecodeProtobufSignDoc"} {
+		fn, ok := r.P.FnOK(id)
+		if !ok {
+			r.Bad("R17", "anchor/"+id, "", "not found")
+			continue
+		}
+		covered := false
+		eachCall(fn, func(ci CallInfo) {
+			if !(strings.HasPrefix(ci.Name, "RejectUnknownFields") || (ci.Name == "Equal" && strings.HasSuffix(ci.PkgPath, "bytes"))) {
+				// a same-package helper that is handed the sign doc and does one of the above
+				if ci.Static == nil || fnPkgPath(ci.Static) != fnPkgPath(fn) {
+					return
+				}
+				takesDoc := false
+				for _, a := range ci.Instr.Common().Args {
+					if namedName(deref(a.Type())) == "SignDoc" {
+						takesDoc = true
+					}
+				}
+				if !takesDoc {
+					return
+				}
+				eachCall(ci.Static, func(g CallInfo) {
+					if strings.HasPrefix(g.Name, "RejectUnknownFields") || (g.Name == "Equal" && strings.HasSuffix(g.PkgPath, "bytes")) {
+						for _, a := range g.Instr.Common().Args {
+							if backSlice(a).HasField("SignDoc", "BodyBytes") {
+								covered = true
+							}
+						}
+					}
+				})
+				return
+			}
+			for _, a := range ci.Instr.Common().Args {
+				if backSlice(a).HasField("SignDoc", "BodyBytes") {
+					covered = true
+				}
+			}
+		})
+		r.Check(covered, "R17", fnID(fn)+"#body-bytes-covered", r.P.Pos(fnPos(fn)), "SignDoc.BodyBytes pass RejectUnknownFields / a canonical-encoding comparison",
+			fnID(fn)+" builds the typed data an EIP-712 signature is verified against from the unmarshalled body only: bytes the unmarshalling drops (an unknown non-critical field 1024 appended to body_bytes, a repeated memo field) are not signed. A third party appends 3130 bytes to a victim's signed transaction: DeliverTx code 11 (out of gas), the victim's sequence goes 2 → 3 and the fee of 110957000000000 aISLM is taken, nothing is sent")
+	}
+	if fn, ok := r.P.FnOK("(app/ante/cosmos.LegacyEip712SigVerificationDecorator).AnteHandle"); ok {
+		looks := false
+		for _, g := range append([]*ssa.Function{fn}, samePkgCallees(fn)...) {
+			eachCall(g, func(ci CallInfo) {
+				if ci.Name == "GetNonCriticalExtensionOptions" {
+					looks = true
+				}
+			})
+			eachInstr(g, func(in ssa.Instruction) {
+				if fa, ok := in.(*ssa.FieldAddr); ok {
+					if _, f, ok := fieldOfAddr(fa); ok && f == "NonCriticalExtensionOptions" {
+						looks = true
+					}
+				}
+			})
+		}
+		r.Check(looks, "R17", fnID(fn)+"#non-critical-options-refused", r.P.Pos(fnPos(fn)), "the Web3Tx verifier looks at the non-critical extension options",
+			"the Web3Tx (legacy EIP-712) route verifies the signature over legacytx.StdSignBytes and never looks at the body's non_critical_extension_options (nor at unknown body fields): a third party adds a 3056-byte non-critical option to a victim's signed Web3Tx transaction — code 11, sequence 2 → 3, fee 112094500000000 aISLM taken, nothing sent; with 100 extra bytes the changed transaction simply executes")
+	} else {
+		r.Bad("R17", "anchor/LegacyEip712SigVerificationDecorator.AnteHandle", "", "not found")
+	}
+}
+
+// samePkgCallees: the functions of fn's package that fn calls statically (one level).
+func samePkgCallees(fn *ssa.Function) []*ssa.Function {
+	var out []*ssa.Function
+	seen := map[*ssa.Function]bool{}
+	eachCall(fn, func(ci CallInfo) {
+		if ci.Static != nil && fnPkgPath(ci.Static) == fnPkgPath(fn) && !seen[ci.Static] {
+			seen[ci.Static] = true
+			out = append(out, ci.Static)
+		}
+	})
+	return out
 }
 
 // c03ChainRunsThrough (C03 R12): no decorator ends its chain with success.
